@@ -822,6 +822,8 @@ class Obs:
         else:
             if isinstance(y, np.ndarray):
                 return np.array([self - o for o in y])
+            elif isinstance(y, complex):
+                return CObs(self, 0) - y
             elif y.__class__.__name__ in ['Corr', 'CObs']:
                 return NotImplemented
             else:
@@ -842,6 +844,8 @@ class Obs:
         else:
             if isinstance(y, np.ndarray):
                 return np.array([self / o for o in y])
+            elif isinstance(y, complex):
+                return CObs(self, 0) / y
             elif y.__class__.__name__ in ['Corr', 'CObs']:
                 return NotImplemented
             else:
@@ -853,6 +857,8 @@ class Obs:
         else:
             if isinstance(y, np.ndarray):
                 return np.array([o / self for o in y])
+            elif isinstance(y, complex):
+                return y / CObs(self, 0)
             elif y.__class__.__name__ in ['Corr', 'CObs']:
                 return NotImplemented
             else:
@@ -861,10 +867,18 @@ class Obs:
     def __pow__(self, y):
         if isinstance(y, Obs):
             return derived_observable(lambda x, **kwargs: x[0] ** x[1], [self, y], man_grad=[y.value * self.value ** (y.value - 1), self.value ** y.value * np.log(self.value)])
+        elif isinstance(y, complex):
+            modulus = self ** y.real
+            phase = y.imag * np.log(self)
+            return CObs(modulus * np.cos(phase), modulus * np.sin(phase))
         else:
             return derived_observable(lambda x, **kwargs: x[0] ** y, [self], man_grad=[y * self.value ** (y - 1)])
 
     def __rpow__(self, y):
+        if isinstance(y, complex):
+            modulus = np.abs(y) ** self
+            phase = np.angle(y) * self
+            return CObs(modulus * np.cos(phase), modulus * np.sin(phase))
         return derived_observable(lambda x, **kwargs: y ** x[0], [self], man_grad=[y ** self.value * np.log(y)])
 
     def __abs__(self):
